@@ -8,7 +8,7 @@
 
 use std::error::Error;
 
-use crate::model::Trusted;
+use crate::model::{Trusted, check_generalized_quad, check_quad, check_triple};
 use sophia_api::source::{
     StreamError,
     StreamError::{SinkError, SourceError},
@@ -22,7 +22,7 @@ pub struct StrictRioTripleSource<T>(pub T);
 impl<T> sophia_api::source::Source for StrictRioTripleSource<T>
 where
     T: rio_api::parser::TriplesParser,
-    T::Error: Error + Send + Sync + 'static,
+    T::Error: Error + Send + Sync + 'static + From<std::io::Error>,
 {
     type Item<'x> = Trusted<rio_api::model::Triple<'x>>;
 
@@ -39,6 +39,8 @@ where
         }
         parser
             .parse_step(&mut |t| -> Result<(), RioStreamError<T::Error, EF>> {
+                // the terms must be valid for Sophia, not only for Rio, to be trusted
+                check_triple(&t).map_err(|e| RioStreamError::Source(std::io::Error::from(e).into()))?;
                 f(Trusted(t)).map_err(RioStreamError::Sink)
                 // NB: RioStreamError::Source is produced implicitly by parse_step,
                 // using the fact that RioStreamError<A, B> implements From<A>
@@ -55,7 +57,7 @@ pub struct StrictRioQuadSource<T>(pub T);
 impl<T> sophia_api::source::Source for StrictRioQuadSource<T>
 where
     T: rio_api::parser::QuadsParser,
-    T::Error: Error + Send + Sync + 'static,
+    T::Error: Error + Send + Sync + 'static + From<std::io::Error>,
 {
     type Item<'x> = Trusted<rio_api::model::Quad<'x>>;
 
@@ -72,6 +74,8 @@ where
         }
         parser
             .parse_step(&mut |q| -> Result<(), RioStreamError<T::Error, EF>> {
+                // the terms must be valid for Sophia, not only for Rio, to be trusted
+                check_quad(&q).map_err(|e| RioStreamError::Source(std::io::Error::from(e).into()))?;
                 f(Trusted(q)).map_err(RioStreamError::Sink)
                 // NB: RioStreamError::Source is produced implicitly by parse_step,
                 // using the fact that RioStreamError<A, B> implements From<A>
@@ -88,7 +92,7 @@ pub struct GeneralizedRioSource<T>(pub T);
 impl<T> sophia_api::source::Source for GeneralizedRioSource<T>
 where
     T: rio_api::parser::GeneralizedQuadsParser,
-    T::Error: Error + Send + Sync + 'static,
+    T::Error: Error + Send + Sync + 'static + From<std::io::Error>,
 {
     type Item<'x> = Trusted<rio_api::model::GeneralizedQuad<'x>>;
 
@@ -105,6 +109,8 @@ where
         }
         parser
             .parse_step(&mut |q| -> Result<(), RioStreamError<T::Error, EF>> {
+                // the terms must be valid for Sophia, not only for Rio, to be trusted
+                check_generalized_quad(&q).map_err(|e| RioStreamError::Source(std::io::Error::from(e).into()))?;
                 f(Trusted(q)).map_err(RioStreamError::Sink)
                 // NB: RioStreamError::Source is produced implicitly by parse_step,
                 // using the fact that RioStreamError<A, B> implements From<A>
